@@ -234,7 +234,9 @@ def do_case(ctx, inp):
                 leak_call = c["k"] in ("evaluate", "evalprops", "assume")
                 named = set(c.get("I", {}))
                 changed = [(x["id"], [y["lo"], y["hi"]]) for x, y in zip(subs(b), subs(a)) if core(x) != core(y) and x["id"] == y["id"] and (x["lo"], x["hi"]) != (y["lo"], y["hi"])]
-                shaped = leak_call and j == i and changed and all(cid in named and c["I"][cid] == nb for cid, nb in changed)
+                comp_ids = set(compound_ids(b))
+                # the known leak rewrites *sub-propositions* named in the dictionary; a changed leaf is something else
+                shaped = leak_call and j == i and changed and all(cid in named and cid in comp_ids and c["I"][cid] == nb for cid, nb in changed)
                 if shaped:
                     ctx.fail("receiver-mutated-by-query", {"step": step, "call": c, "changed": changed}, known=F_C09A)
                     leaked[i] = True
